@@ -305,3 +305,106 @@ def cases():
         for (p, z, f) in shapes():
             cs.append(ClimatologyCheck(period=p, hasz=z, hasf=f, view=view))
     return cs
+
+
+class ClimAdd(Case):
+    """ClimatologyConfig.add / convert: the stored member has sorted spans; unknown period names
+    are rejected.  params: period, hasz, hasf, via in {'add','convert'}"""
+
+    module = "ioos_qc.qartod"
+    function = "ClimatologyConfig.add"
+    props = {"post.member_has_sorted_spans": ("C08",), "raises.unknown-period": ("C08",), "no-raise": ("C08",)}
+
+    def declare(self, mk):
+        e = Env()
+        e.mode = mk.mode
+        p = self.params["period"]
+        if p is None:
+            e.t0, e.t1 = mk.dt("t0"), mk.dt("t1")
+        else:
+            e.t0, e.t1 = mk.real("t0"), mk.real("t1")
+        e.v0, e.v1 = mk.real("v0"), mk.real("v1")
+        if self.params["hasf"]:
+            e.f0, e.f1 = mk.real("f0"), mk.real("f1")
+        if self.params["hasz"]:
+            e.z0, e.z1 = mk.real("z0"), mk.real("z1")
+        return e
+
+    def call(self, mod, e):
+        kw = {"tspan": (e.t0, e.t1), "vspan": [e.v0, e.v1], "period": self.params["period"]}
+        if self.params["hasf"]:
+            kw["fspan"] = (e.f0, e.f1)
+        if self.params["hasz"]:
+            kw["zspan"] = [e.z0, e.z1]
+        if self.params["via"] == "add":
+            cfg = mod.ClimatologyConfig()
+            cfg.add(**kw)
+        else:
+            cfg = mod.ClimatologyConfig.convert([kw])
+        return cfg
+
+    def raises(self, e):
+        if self.params["period"] == "bogus":
+            return [(ValueError, "unknown-period", True)]
+        return []
+
+    def canary(self, e, res, k):
+        return None
+
+    def post_global(self, e, res):
+        cfg = res.value
+        ms = cfg.members
+        if len(ms) != 1:
+            return {"member_has_sorted_spans": False}
+        m = ms[0]
+
+        def tv(x):
+            if hasattr(x, "ns"):
+                return x.ns
+            if hasattr(x, "value") and not hasattr(x, "val"):
+                return int(x.value)  # real pandas Timestamp
+            return pval(x)
+
+        def same(sp, a, b, conv=pval):
+            return alg.and_(alg.eq(conv(sp.minv), alg.min_(conv(a), conv(b))), alg.eq(conv(sp.maxv), alg.max_(conv(a), conv(b))))
+
+        def tconv(x):
+            if self.params["period"] is None:
+                if isinstance(x, SNum):
+                    return x.val
+                if hasattr(x, "ns"):
+                    return x.ns
+                import numpy as np
+                import pandas as pd
+
+                return int(pd.Timestamp(x).value)
+            return pval(x) if not isinstance(x, float) else alg.conc(x)
+
+        fs = [same(m.tspan, e.t0, e.t1, tconv), same(m.vspan, e.v0, e.v1, _num)]
+        fs.append(same(m.fspan, e.f0, e.f1, _num) if self.params["hasf"] else m.fspan is None)
+        fs.append(same(m.zspan, e.z0, e.z1, _num) if self.params["hasz"] else m.zspan is None)
+        fs.append(m.period == self.params["period"])
+        return {"member_has_sorted_spans": alg.and_(*fs)}
+
+    def grid(self, tier, rng):
+        for t0, t1 in ((1, 5), (5, 1), (3, 3)):
+            for v0, v1 in ((0, 1), (1, 0)):
+                yield {"t0": t0, "t1": t1, "v0": v0, "v1": v1, "f0": 2, "f1": -2, "z0": 10, "z1": 0}
+
+
+def _num(x):
+    if isinstance(x, float):
+        return alg.conc(x)
+    return pval(x)
+
+
+def add_cases():
+    cs = []
+    for p in (None, "week", "month", "dayofyear"):
+        for z in (False, True):
+            for f in (False, True):
+                cs.append(ClimAdd(period=p, hasz=z, hasf=f, via="add"))
+    cs.append(ClimAdd(period="month", hasz=True, hasf=True, via="convert"))
+    cs.append(ClimAdd(period=None, hasz=False, hasf=False, via="convert"))
+    cs.append(ClimAdd(period="bogus", hasz=False, hasf=False, via="add"))
+    return cs
